@@ -46,7 +46,7 @@ func (c *Ctx) mck(which map[string]bool) {
 		// NewPublishMock: Errorf iff message or topic differs
 		n := 0
 		for _, cl := range c.closuresOf("NewPublishMock") {
-			if hasParam(cl, "message") == nil {
+			if paramOfType(cl, "[]byte") == nil || paramOfType(cl, "string") == nil {
 				continue
 			}
 			n++
@@ -66,7 +66,7 @@ func (c *Ctx) mck(which map[string]bool) {
 					}
 					if e.Kind == pathx.KAssume {
 						if cm, ok := cmpOf(e.Val, e.Truth); ok && (cm.Op == token.EQL || cm.Op == token.NEQ) {
-							if isParamNamed(cm.X, "topic") || isParamNamed(cm.Y, "topic") {
+							if isParamOfType(cm.X, "string") || isParamOfType(cm.Y, "string") {
 								v := cm.Op == token.EQL
 								topEq = &v
 							}
@@ -81,7 +81,7 @@ func (c *Ctx) mck(which map[string]bool) {
 						for _, ins := range b.Instrs {
 							if ia, ok := ins.(*ssa.IndexAddr); ok {
 								if u, ok := ia.X.(*ssa.UnOp); ok {
-									if fv, ok := u.X.(*ssa.FreeVar); ok && fv.Name() == "want" {
+									if fv, ok := u.X.(*ssa.FreeVar); ok && isWantVar(fv) {
 										took = true
 									}
 								}
@@ -113,7 +113,7 @@ func (c *Ctx) mck(which map[string]bool) {
 
 		// subscribe mock: set comparison
 		for _, cl := range c.closuresOf("newSubscribeMock") {
-			if hasParam(cl, "topicFilters") == nil {
+			if paramOfType(cl, "[]string") == nil {
 				continue
 			}
 			a := c.acc("MCK-1", cl, "filter-set-compared:extra⇒wrong,present⇒removed;non-empty-wrong/todo⇒Errorf")
@@ -147,7 +147,7 @@ func (c *Ctx) mck(which map[string]bool) {
 						for _, ins := range b.Instrs {
 							if ia, ok := ins.(*ssa.IndexAddr); ok {
 								if u, ok := ia.X.(*ssa.UnOp); ok {
-									if fv, ok := u.X.(*ssa.FreeVar); ok && fv.Name() == "want" {
+									if fv, ok := u.X.(*ssa.FreeVar); ok && isWantVar(fv) {
 										took = true
 									}
 								}
@@ -313,7 +313,7 @@ func (c *Ctx) mck(which map[string]bool) {
 	if which["MCK-4"] {
 		n := 0
 		for _, f := range c.testFuncs() {
-			q := hasParam(f, "quit")
+			q := paramOfType(f, "<-chan struct{}")
 			if q == nil || f.Parent() == nil {
 				continue
 			}
@@ -502,4 +502,10 @@ func (c *Ctx) isGoTargetOf(fn *ssa.Function) bool {
 		}
 	}
 	return false
+}
+
+// isWantVar: the captured expectation list of a mock (a slice of Transfer or Filter).
+func isWantVar(fv *ssa.FreeVar) bool {
+	t := fv.Type().String()
+	return strings.HasSuffix(t, "mqtttest.Transfer") || strings.HasSuffix(t, "mqtttest.Filter")
 }
